@@ -10,6 +10,8 @@
 //   s   pool.start(new TrackedTask(id))                 tracked Runnable subclass
 //   f   pool.start(Functor(id))                         plain callable   -> template start -> TRunnable<Functor>
 //   g   pool.start(FunctorArg(id), id * 7)              callable + argument -> TRunnable<FunctorArg, int>
+//   l   { Functor fn(id); pool.start(fn); }              a NAMED callable (lvalue) whose scope ends right after start(): the pool
+//                                                        must own its copy; the caller's object is clobbered before it dies
 //   c   pool.clear()
 //   x   pool.stop()
 //   w   wait (scheduler-level, no library call) until every task submitted so far has been destroyed
@@ -87,13 +89,14 @@ static void runOne(int maxThreads, const std::vector<std::string> &ops) {
     pool->setMaxThreadCount(maxThreads);
     int next = 1;
     for (auto &op : ops) {
-        if (op == "s" || op == "f" || op == "g") {
+        if (op == "s" || op == "f" || op == "g" || op == "l") {
             int id = next++;
             ev("op start " + std::to_string(id));
             g_submitted.insert(id);
             ev("submit " + std::to_string(id));
             if (op == "s") pool->start(new TrackedTask(id));
             else if (op == "f") pool->start(Functor(id));
+            else if (op == "l") { Functor fn(id); pool->start(fn); fn.id = -777; }
             else pool->start(FunctorArg(id), id * 7);
         } else if (op == "c") {
             ev("op clear");
